@@ -16,7 +16,7 @@ from pymemcache import serde as S
 PROPERTY = "C15"
 LEVEL = "exploration"
 RULE = ("case = (serde configuration, value description). Values: a recursive Hypothesis strategy over bytes, str, "
-        "int (either sign, up to 4000 digits, digit counts straddling every threshold), bool, None, float (no NaN), "
+        "int (either sign, up to 4000 digits, digit counts straddling every threshold), bool, None, float (no NaN), bytearray, text beginning with U+FEFF / U+FFFE / NUL, "
         "complex, Decimal, datetime, tuple/list/dict/set/frozenset, and module-level subclasses of int/str/bytes/"
         "list/dict with and without attributes; payload sizes straddling each threshold; incompressible bytes. "
         "Configurations: PickleSerde(p) p=0..5; CompressedSerde x min_compress_len {0,1,10,400} x codec {zlib,bz2,"
@@ -109,6 +109,8 @@ def build(d):
         return frozenset(build(x) for x in d[1])
     if t == "dict":
         return {build(k): build(v) for k, v in d[1]}
+    if t == "bytearray":
+        return bytearray(d[1])
     if t == "payload-of":
         # a bytes value that is byte-for-byte the serialized form of another value (same payload, different type)
         pl, _f = S.PickleSerde(d[2]).serialize("key", build(d[1]))
@@ -298,8 +300,12 @@ def value_strategy():
     sizes = st.one_of(st.sampled_from(THRESH), st.integers(0, 60))
     b = st.one_of(st.binary(max_size=40), sizes.flatmap(lambda n: st.binary(min_size=n, max_size=n)),
                   st.tuples(st.just("noise"), st.sampled_from(THRESH + [450, 5000]), st.integers(0, 5)))
-    leaf_bytes = b.map(lambda x: x if isinstance(x, tuple) else ("bytes", x))
-    leaf_str = st.one_of(st.text(max_size=30), sizes.flatmap(lambda n: st.text(min_size=n, max_size=n))).map(lambda s: ("str", s))
+    leaf_bytes = st.one_of(b.map(lambda x: x if isinstance(x, tuple) else ("bytes", x)),
+                           st.one_of(st.binary(max_size=40), sizes.flatmap(lambda n: st.binary(min_size=n, max_size=n))).map(lambda x: ("bytearray", x)))
+    # (text beginning with U+FEFF, U+FFFE or other characters a codec might treat specially is text like any other)
+    special = st.sampled_from(["\ufeff", "\ufffe", "\ufeff\ufeff", "\x00", "\ud7ff", "\U0010ffff", "\xef\xbb\xbf", "\u2028", "\r\n"])
+    leaf_str = st.one_of(st.text(max_size=30), sizes.flatmap(lambda n: st.text(min_size=n, max_size=n)),
+                         st.tuples(special, st.text(max_size=12), st.sampled_from(["", "\ufeff", "\n"])).map("".join)).map(lambda s: ("str", s))
     leaf_int = st.one_of(
         st.integers(-2 ** 70, 2 ** 70).map(lambda i: ("int", i)),
         st.sampled_from([0, 1, -1, 2 ** 31, 2 ** 63, -2 ** 63, 2 ** 64]).map(lambda i: ("int", i)),
@@ -361,6 +367,9 @@ def grid_cases(tier, seed):
                ("sub", "MyDict", ("dict", []), "note"), ("bigint", 4000, 1, 1), ("bigint", 4000, 9, -1),
                ("dict", [[("str", "k"), ("bytes", b"v" * 500)]]), ("decimal", "1.50"), ("datetime", [2024, 2, 29, 23, 59, 59, 999999]),
                ("complex", 1.5, -2.0), ("frozenset", [("int", 1), ("str", "a")]), ("set", []),
+               ("bytearray", b""), ("bytearray", b"abc"), ("bytearray", b"z" * 401), ("bytearray", b"\x80\x05K\x01."), ("list", [("bytearray", b"in a list")]),
+               ("str", "\ufeff"), ("str", "\ufeffhello"), ("str", "\ufeff\ufeffx"), ("str", "x\ufeff"), ("str", "\ufffe" + "y" * 450), ("str", "\ufeff" + "y" * 450),
+               ("str", "\x00"), ("str", "\xef\xbb\xbfz"), ("sub", "MyStr", ("str", "\ufeffsub"), None), ("dict", [[("str", "\ufeffk"), ("str", "\ufeffv")]]),
                # values that contain themselves, reach an object twice, or point back at their parent
                ("cyclic-list", []), ("cyclic-list", [("int", 1), ("str", "x" * 500)]), ("cyclic-dict", []), ("cyclic-dict", [[("str", "k"), ("bytes", b"v" * 450)]]),
                ("back-pointer", [("int", 7)]), ("back-pointer", [("str", "y" * 600)]), ("shared", ("list", [("int", 1), ("int", 2)])),
